@@ -224,12 +224,72 @@ def check_file(case):
 
 # ---- unit 3b: histories - the bytes follow the value, not the object or an earlier call ------------
 
+def _interfere(which):
+    """Call some OTHER part of the public API (what a long-running process might do between two serializations)."""
+    import builtins
+    import copy
+    import tempfile
+    from conda_content_trust import cli as CLI, metadata_construction as MC
+    from vlib import gen_metadata as GM
+    pub = keys.pub_hex(keys.POOL[0])
+    md = GM.wrap(MC.build_root_metadata(3, [pub], 1, [pub], 1, "2024-01-01T00:00:00Z", "2034-01-01T00:00:00Z"))
+    tmp = tempfile.mkdtemp(prefix="c07i-")
+    scripts = {1: ["1"], 2: ["7", "root", "2", "1"], 3: ["2", keys.POOL[0].hex(), "1"], 8: ["0", os.path.join(tmp, "out.json")],
+               9: ["7", "nobody", "x", "9", "3", "1"]}
+    try:
+        if which == 0:
+            CLI.build_parser()
+        elif which in scripts:
+            feed = iter(scripts[which])
+            real = builtins.input
+
+            def fake(prompt=""):
+                try:
+                    return next(feed)
+                except StopIteration:
+                    raise EOFError
+            builtins.input = fake
+            try:
+                CLI.interactive_modify_metadata(copy.deepcopy(md))
+            except EOFError:
+                pass
+            finally:
+                builtins.input = real
+        elif which == 4:
+            MC.build_delegating_metadata("key_mgr", {"pkg_mgr": {"pubkeys": [pub], "threshold": 1}})
+        elif which == 5:
+            S.sign_signable(copy.deepcopy(md), C.PrivateKey.from_bytes(keys.POOL[1]))
+        elif which == 6:
+            try:
+                A.verify_delegation("key_mgr", copy.deepcopy(md), copy.deepcopy(md))
+            except Exception:
+                pass
+        elif which == 7:
+            C.checkformat_delegating_metadata(copy.deepcopy(md))
+    finally:
+        shutil.rmtree(tmp, ignore_errors=True)
+
+
 def check_history(case):
     import copy
     v = copy.deepcopy(case["v"])
     steps = 0
     if _ser(v) != canon(v):
         raise Violation("bytes differ from the published format", bucket="format differs")
+    # other API activity in the same process must not change what canonserialize emits afterwards
+    for which in case.get("interfere", []):
+        try:
+            _interfere(which % 10)
+        except Violation:
+            raise
+        except Exception as e:
+            raise Violation("API call #%d used as interference raised %s: %s" % (which % 10, type(e).__name__, str(e)[:100]),
+                            bucket="interfering API call raises")
+        steps += 1
+        if _ser(v) != canon(v) or _ser(copy.deepcopy(v)) != canon(v):
+            raise Violation("after an unrelated API call (#%d: parser / interactive metadata editor / builder / signer / verifier) "
+                            "canonserialize emits different bytes for the same value" % (which % 10),
+                            bucket="serialization changed by other API activity")
     # the very same object, changed in place, serialized again
     for mut in (related.inplace_mutate_nested, related.inplace_mutate):
         if mut(v):
@@ -315,12 +375,25 @@ def check_codepoints(case):
 @st.composite
 def _corpus_and_config(draw):
     vals = draw(st.lists(G.payloads, min_size=4, max_size=12))
-    return {"values": [[v, G.shuffled(v, draw)] for v in vals], "config": draw(configrun.configs)}
+    cfg = draw(configrun.configs)
+    if draw(st.integers(0, 2)) == 0:
+        cfg = configrun.with_ascii_locale(cfg)
+    return {"values": [[v, G.shuffled(v, draw)] for v in vals], "config": cfg}
 
 
 def check_config(case):
     flat = [x for pair in case["values"] for x in pair]
     want = [hashlib.sha256(canon(v)).hexdigest() for v in flat]
+    # the value as read back from a file an external tool wrote in raw UTF-8 must serialize to the same bytes everywhere
+    from vlib import gen_repodata as GR
+    raws = [{"rawfile": GR.spell(pair[0], "utf8", canon)} for pair in case["values"]]
+    loaded = configrun.run_child("persist", raws, case["config"])
+    if isinstance(loaded, list):
+        for i, (pair, (raw, back)) in enumerate(zip(case["values"], loaded)):
+            if back != hashlib.sha256(canon(pair[0])).hexdigest():
+                raise Violation("a raw-UTF-8 JSON file holding corpus item %d loads to a different value (or fails: %s) under "
+                                "configuration %r, so the signed bytes depend on the locale" % (i, raw, {k: v for k, v in case["config"].items() if v}),
+                                bucket="configuration dependence (loader)")
     got = configrun.run_child("canon", flat, case["config"])
     if got != want:
         bad = [i for i, (a, b) in enumerate(zip(got, want)) if a != b]
@@ -346,8 +419,8 @@ UNITS = [
          doc="a strict one-leaf change of the JSON value always changes the bytes"),
     Unit("file", check_file, strategy=lambda: st.builds(lambda v: {"v": v}, G.payloads),
          quick=300, thorough=8000, doc="write_metadata_to_file writes exactly the canonical bytes"),
-    Unit("history", check_history, strategy=lambda: st.builds(lambda v, k: {"v": v, "k": k}, G.payloads,
-                                                            st.integers(0, 15)),
+    Unit("history", check_history, strategy=lambda: st.builds(lambda v, k, i: {"v": v, "k": k, "interfere": i}, G.payloads,
+                                                            st.integers(0, 15), st.lists(st.integers(0, 9), max_size=3)),
          quick=600, thorough=20000,
          doc="same object changed in place / ==-equal other JSON value / sign-verify around in-place edits: bytes follow the value"),
     Unit("fuzz", check_fuzz, enumerate=lambda tier: FZ.campaigns(tier, PROPERTY), shards_quick=4, shards_thorough=16,
